@@ -106,6 +106,9 @@ class AccfgGen:
                     vals[r.randrange(len(vals))] = self.pick(scope)
                 st["vals"] = vals
             self.history.setdefault(a, []).append(list(st["vals"]))
+            if p.get("partial") and r.random() < p["partial"]:
+                # a setup that only writes some of the fields (the others keep what they hold); possibly none at all
+                st["omit"] = sorted(r.sample(range(len(st["vals"])), r.randint(1, len(st["vals"]))))
             if p.get("n_launch"):
                 st["lvals"] = [r.choice(p["launch_pool"]) for _ in range(p["n_launch"][a])]
             if p.get("prethread") and r.random() < p["prethread"]:
@@ -156,12 +159,12 @@ class AccfgGen:
                     node["carry"].append([arg, r.choice(scope), None])
                     inner = inner + [arg]
             head = []
+            at_head = list(inner)  # what is visible at the head of the body
             if p.get("if_head") and depth + 1 <= p["max_depth"] and r.random() < p["if_head"]:
                 # the loop body starts with a conditional (e.g. a conditional re-launch) directly followed by a launch
                 self.count += 2
                 head = [self.if_node(inner, depth + 1, True), self.stmt_sl(inner)]
             self.loops = getattr(self, "loops", []) + [(iv, node["step"])]
-            at_head = list(inner)  # what is visible at the head of the body
             node["body"] = head + self.stmts(r.randint(1, 3), inner, depth + 1, True)
             self.loops = self.loops[:-1]
             if p.get("next_iv") and r.random() < p["next_iv"]:
@@ -387,7 +390,8 @@ def emit(ast, acc_names=None, vty="i32", decls=()) -> str:
             acc = names[s["acc"]]
             st, tk = fresh("s"), fresh("t")
             # values named %n.. / %l0 / %t0 are the index-typed function arguments (C04: the lowering has to cast them)
-            fs = ", ".join(f'"{f}" = {v} : {"index" if v in INDEX_ARGS else vty}' for f, v in zip(acc["fields"], s["vals"]))
+            omit = set(s.get("omit", ()))
+            fs = ", ".join(f'"{f}" = {v} : {"index" if v in INDEX_ARGS else vty}' for j, (f, v) in enumerate(zip(acc["fields"], s["vals"])) if j not in omit)
             an = acc["name"]
             frm = f" from {link}" if link else ""
             e(ind, f'{st} = accfg.setup "{an}"{frm} to ({fs}) : !accfg.state<"{an}">')
@@ -598,6 +602,8 @@ def shrink_body(body):
             yield body[:i] + [dict(s, callee="func")] + body[i + 1 :]
         if k == "call" and s.get("callee") == "local":
             yield body[:i] + [{kk: vv for kk, vv in dict(s, callee="func").items() if kk not in ("acc", "vals")}] + body[i + 1 :]
+        if k == "sl" and s.get("omit"):
+            yield body[:i] + [{kk: vv for kk, vv in s.items() if kk != "omit"}] + body[i + 1 :]
         if k == "sl":
             for j, v in enumerate(s["vals"]):
                 if v != "%x0":
